@@ -358,6 +358,19 @@ func recC12(c *ctx) {
 		}
 		dec("edsec", b)
 	}
+	// Ed25519-style expanded keys: the clamped form and EVERY single violation of the clamp (each low bit set, bit 254 clear,
+	// bit 255 set, both top bits wrong)
+	{
+		b := r.Bytes(64)
+		b[0] &= 0xf8
+		b[31] = (b[31] & 0x3f) | 0x40
+		dec("edsec", b)
+		for _, m := range [][3]byte{{0, 0x01, 0}, {0, 0x02, 0}, {0, 0x04, 0}, {31, 0x80, 0}, {31, 0, 0x40}, {31, 0x80, 0x40}} {
+			v := append([]byte(nil), b...)
+			v[m[0]] = (v[m[0]] | m[1]) &^ m[2]
+			dec("edsec", v)
+		}
+	}
 	// ---- batch histories: results equal single verification
 	nb := c.budget(6, 60)
 	for h := 0; h < nb; h++ {
